@@ -161,4 +161,54 @@ theorem skel_Manager_Save_ok : skel_Manager_Save = ([
   "return tckt.setCookie(rw, req, s)",
   "tckt.setCookie"] : List String) := rfl
 
+theorem skel_storedSessionLoader_refreshSessionIfNeeded_ok : skel_storedSessionLoader_refreshSessionIfNeeded = ([
+  "if !needsRefresh(s.refreshPeriod, session)",
+  "needsRefresh",
+  "return nil",
+  "defer",
+  "for !lockObtained",
+  "return errors.New(\"timeout obtaining session lock\")",
+  "errors.New",
+  "session.ObtainLock",
+  "if err != nil && !errors.Is(err, sessionsapi.ErrLockNotObtained)",
+  "return fmt.Errorf(\"error occurred while trying to obtain lock: %v\",",
+  "if errors.Is(err, sessionsapi.ErrLockNotObtained)",
+  "defer",
+  "func{",
+  "if session == nil",
+  "return",
+  "if err != nil",
+  "session.ReleaseLock",
+  "s.store.Load",
+  "if err != nil",
+  "return fmt.Errorf(\"could not load session: %v\", err)",
+  "if freshSession == nil",
+  "return errors.New(\"session no longer exists, it may have been remov",
+  "errors.New",
+  "if !needsRefresh(s.refreshPeriod, session)",
+  "needsRefresh",
+  "return nil",
+  "if err != nil",
+  "s.refreshSession",
+  "return s.validateSession(req.Context(), session)",
+  "s.validateSession"] : List String) := rfl
+
+theorem skel_MakeCookieFromOptions_ok : skel_MakeCookieFromOptions = ([
+  "if domain == \"\" && len(opts.Domains) > 0",
+  "strings.Join",
+  "if expiration > time.Duration(0)",
+  "if expiration < time.Duration(0)",
+  "return c"] : List String) := rfl
+
+theorem skel_SessionStore_makeSessionCookie_ok : skel_SessionStore_makeSessionCookie = ([
+  "if strValue != \"\"",
+  "encryption.SignedValue",
+  "if err != nil",
+  "return nil, err",
+  "s.makeCookie",
+  "if len(c.String()) > maxCookieLength",
+  "return splitCookie(c), nil",
+  "splitCookie",
+  "return []*http.Cookie{c}, nil"] : List String) := rfl
+
 end O2P.Expect.C09
